@@ -180,6 +180,10 @@ fn history<const MAX: usize>(rep: &mut Report, r: &mut Rng) {
             rep.violation(&format!("{}|wrong-limit-or-base", which), J::obj(vec![("limit", J::U(evs[0].n as u64)), ("expected_limit", J::U(8 * shadow.len() as u64 - 1)), ("base", J::hex(evs[0].val)), ("table", J::hex(base))]));
         }
     }
+    // loading hands the table over; it does not rewrite it
+    if !check_state(rep, &g, &shadow, &log, "after-load") {
+        return;
+    }
     if rep.want_sample() {
         rep.sample(J::obj(vec![("max", J::U(MAX as u64)), ("ops", J::A(log.iter().take(8).cloned().collect())), ("final_entries", J::A(shadow.iter().take(10).map(|&x| J::hex(x)).collect())), ("limit", J::U(g.limit() as u64))]));
     }
